@@ -114,6 +114,14 @@ class C04(Check):
         "on the generated network every hydraulic solve converges and no post-solve control changes a status (plain pipes, one reservoir)",
     ]
 
+    # ------------------------------------------------------------------ translator
+    def translate(self, ctx):
+        """Gen/TimeConds.lean (bodies of the two evaluate() methods) and Gen/PresolveShape.lean (statement tree of the pre-solve
+        scheduler) regenerated from the current source; Props/C04 proves they ARE the hand-written models"""
+        import c04_translate
+
+        c04_translate.write_all()
+
     # ------------------------------------------------------------------ level (a): conditions
     def _cond_cases(self, ctx, n):
         rng = ctx.rng
